@@ -1,6 +1,8 @@
 import HecsModel.Model.World
 import HecsModel.Model.Proto
 import HecsModel.Spec.World
+import HecsModel.Model.QueryJudge
+import HecsModel.Model.Prepared
 /-
   Judge for engine `world`: replays a trace line on the model and renders the model's answer in the
   harness' canonical format.  The comparison itself is a string equality done by the driver.
@@ -50,7 +52,7 @@ def obsHandle (w : World) (h : Entity) : String :=
   c ++ "/" ++ e
 
 def obs (w : World) (hs : List Entity) : String :=
-  s!"len={w.len} iter={obsIter w} arch={obsArch w} hs=" ++ showList (obsHandle w) hs
+  s!"len={w.len} iter={obsIter w} arch={obsArch w} ag={w.archs.size} hs=" ++ showList (obsHandle w) hs
 
 /-- all values still stored (what dropping the world drops) -/
 def allVals (w : World) : List Comp := w.archs.toList.flatMap (fun ar => ar.rows.toList.flatMap (·.vals))
@@ -94,9 +96,21 @@ def specObs (s : SpecW) (hs : List Entity) : String :=
        | none => if s.reserved.contains e then "[]" else "x")
   s!"len={s.live.length} iter={iter} arch={arch} hs=" ++ showList h hs
 
-/-- drop `[..]=0` entries (empty archetypes are not observable facts about the map) -/
+/-- the set of archetype type sets an `obs` line reports (counts stripped) -/
+def archSets (rhs : String) : String :=
+  match (rhs.splitOn " ").find? (·.startsWith "arch=[") with
+  | some t =>
+    let inner := ((t.drop 6).toString.dropEnd 1).toString
+    ";".intercalate ((inner.splitOn ";").map (fun p => (p.splitOn "=").headD ""))
+  | none => ""
+
+def obsGen (rhs : String) : Option Nat :=
+  ((rhs.splitOn " ").find? (·.startsWith "ag=")).bind (fun t => (t.drop 3).toString.toNat?)
+
+/-- drop `[..]=0` entries (empty archetypes are not observable facts about the map) and the
+archetype generation (checked separately) -/
 def dropEmptyArchs (rhs : String) : String :=
-  let toks := rhs.splitOn " "
+  let toks := (rhs.splitOn " ").filter (fun t => !t.startsWith "ag=")
   " ".intercalate (toks.map (fun t =>
     if t.startsWith "arch=[" then
       let inner := ((t.drop 6).toString.dropEnd 1).toString
@@ -142,8 +156,17 @@ def specLine (ss : Specs) (lhs rhs : String) : Except String Specs :=
       match (field args "hs").bind entities? with
       | some hs =>
         let want := specObs s hs
-        if dropEmptyArchs rhs.trimAscii.toString == want then .ok ss
-        else .error s!"observable state differs from the abstract map: spec={want}"
+        if dropEmptyArchs rhs.trimAscii.toString != want then
+          .error s!"observable state differs from the abstract map: spec={want}"
+        else
+          -- C17: a generation value seen with a different set of archetypes must not come back
+          match obsGen rhs with
+          | none => .ok ss
+          | some g =>
+            let sets := archSets rhs
+            if s.gens.any (fun p => p.1 == g && p.2 != sets) then
+              .error s!"archetypes_generation {g} was returned for two different sets of archetypes"
+            else .ok (setS ss n { s with gens := if s.gens.any (fun p => p.1 == g) then s.gens else (g, sets) :: s.gens })
       | none => .error "bad obs"
     | "contains" =>
       match (field args "h").bind entity? with
@@ -151,6 +174,13 @@ def specLine (ss : Specs) (lhs rhs : String) : Except String Specs :=
         if rhs.trimAscii.toString == (if s.contains h then "c=1" else "c=0") then .ok ss
         else .error "contains disagrees with the abstract map (live or reserved handles exist, others do not)"
       | none => .error "bad contains"
+    | "query" =>
+      match (field args "q").bind QueryJudge.parseShape, field args "path" with
+      | some q, some path =>
+        match QueryJudge.specCheck s q path args rhs with
+        | .ok () => .ok ss
+        | .error m => .error m
+      | _, _ => .error "bad query line"
     | "yields" => .error "a call on the shared (&self) path performed a number of atomic accesses other than one"
     | "drop" =>
       match parseRhs rhs with
@@ -185,8 +215,33 @@ def specLine (ss : Specs) (lhs rhs : String) : Except String Specs :=
       | _, _ => .error s!"cannot parse: {lhs} => {rhs}"
   | _ => .error "bad line"
 
-/-- returns the new state and the model's rendering of the right-hand side, or an error -/
-def stepLine (ws : Worlds) (lhs : String) : Except String (Worlds × String) :=
+/-- model-side judge state: worlds, their ids (a fresh id per `World::new`), and one `PreparedQuery`
+per query-menu entry -/
+structure MState where
+  worlds : Worlds := []
+  wids : List (String × Nat) := []
+  nextWid : Nat := 2
+  prepared : List (Nat × Prepared) := []
+  deriving Inhabited
+
+def MState.widOf (m : MState) (n : String) : Nat := ((m.wids.find? (·.1 == n)).map (·.2)).getD 0
+def MState.prep (m : MState) (k : Nat) : Prepared := ((m.prepared.find? (·.1 == k)).map (·.2)).getD {}
+def MState.setPrep (m : MState) (k : Nat) (p : Prepared) : MState :=
+  { m with prepared := (k, p) :: m.prepared.filter (·.1 != k) }
+
+/-- prepared-query paths go through the cached archetype list (C17) -/
+def preparedAnswer (m : MState) (n : String) (w : World) (k : Nat) (q : Q) (path : String) (args : List String) :
+    MState × String :=
+  let p := (m.prep k).refresh (m.widOf n) w q
+  let m' := m.setPrep k p
+  let hs := ((field args "hs").bind entities?).getD []
+  match path with
+  | "prepared_view" =>
+    (m', s!"items={QueryJudge.showPairs (p.iter w q)} g=" ++
+      showList (fun e => QueryJudge.showOptItem (p.viewGet w q e)) hs)
+  | _ => (m', s!"len={p.len w} items={QueryJudge.showPairs (p.iter w q)}")
+
+def stepLineW (ws : Worlds) (lhs : String) : Except String (Worlds × String) :=
   let toks := (lhs.trimAscii.toString.splitOn " ").filter (· ≠ "")
   match toks with
   | [] => .error "empty line"
@@ -208,6 +263,13 @@ def stepLine (ws : Worlds) (lhs : String) : Except String (Worlds × String) :=
           | some h => .ok (ws, if w.contains h then "c=1" else "c=0")
           | none => .error "bad contains"
         | "yields" => .ok (ws, "ok")
+        | "query" =>
+          match (field args "q").bind QueryJudge.parseShape, field args "path" with
+          | some q, some path =>
+            match QueryJudge.answer w q path args with
+            | .ok a => .ok (ws, a)
+            | .error m => .error m
+          | _, _ => .error s!"bad query line: {lhs}"
         | "take" =>
           match (field args "h").bind entity?, field args "into" with
           | some h, some into =>
@@ -228,5 +290,31 @@ def stepLine (ws : Worlds) (lhs : String) : Except String (Worlds × String) :=
             let (w', o) := step w op
             .ok (setW ws n w', showOut o)
     | _, _ => .error s!"cannot parse: {lhs}"
+
+end Hecs.WorldJudge
+
+namespace Hecs.WorldJudge
+open Hecs Hecs.Proto
+
+/-- returns the new state and the model's rendering of the right-hand side, or an error -/
+def stepLine (m : MState) (lhs : String) : Except String (MState × String) :=
+  let toks := (lhs.trimAscii.toString.splitOn " ").filter (· ≠ "")
+  match toks with
+  | ["world", n] =>
+    .ok ({ m with worlds := setW m.worlds n World.new,
+                  wids := (n, m.nextWid) :: m.wids.filter (·.1 != n), nextWid := m.nextWid + 1 }, "ok")
+  | "query" :: n :: args =>
+    match getW m.worlds n, (field args "q").bind QueryJudge.parseShape, field args "path",
+          (field args "k").bind String.toNat? with
+    | some w, some q, some path, some k =>
+      if path.startsWith "prepared" then .ok (preparedAnswer m n w k q path args)
+      else match stepLineW m.worlds lhs with
+        | .ok (ws, a) => .ok ({ m with worlds := ws }, a)
+        | .error e => .error e
+    | _, _, _, _ => .error s!"bad query line: {lhs}"
+  | _ =>
+    match stepLineW m.worlds lhs with
+    | .ok (ws, a) => .ok ({ m with worlds := ws }, a)
+    | .error e => .error e
 
 end Hecs.WorldJudge
